@@ -97,6 +97,7 @@ class PathRun:
         self.taken = []
         self.forks = []
         self.pc = []
+        self.pc_tags = {}      # index into pc -> tag, for assumptions that may be dropped when a proof attempt times out
         self.heap = {}
         self.pre_heap = None
         self.next_oid = 1
@@ -110,6 +111,7 @@ class PathRun:
         self.fields = {}       # attribute name -> current z3 Array(Val -> Val): mutable attributes of opaque objects
         self.fields0 = {}
         self.pre_fields = {}
+        self.allocp = z3.IntVal(-1)   # identity of the next object constructed during the call: fresh objects get alloc, alloc-1, ...
 
     # -- naming ---------------------------------------------------------
     def fresh(self, base):
@@ -194,8 +196,9 @@ class PathRun:
         return ''.join(out)
 
     # -- obligations ------------------------------------------------------
-    def prove(self, goal, kind, label, lineno=None, detail=''):
-        """record an obligation pc => goal; afterwards assume goal."""
+    def prove(self, goal, kind, label, lineno=None, detail='', assume=True, focus=None):
+        """record an obligation pc => goal; afterwards assume goal (unless it is an end-of-path goal: piling proved
+        quantified goals onto the path condition only makes the remaining ones harder)."""
         key = (kind, label, lineno, tuple(self.taken))
         if isinstance(goal, bool):
             goal = z3.BoolVal(goal)
@@ -210,6 +213,23 @@ class PathRun:
                 s.add(*ground_axioms(self.pc + [goal]))
                 t0 = time.time()
                 r = str(s.check())
+                if r == 'unknown' and self.pc_tags:
+                    # retry with fewer hypotheses (sound: dropping assumptions only weakens what is known): first only the
+                    # invariant conjunct with the same index as the goal, then leaving out one tagged conjunct at a time
+                    tagged = sorted(self.pc_tags)
+                    trials = []
+                    if focus is not None:
+                        trials.append([k for k in tagged if self.pc_tags[k] != focus])
+                    trials += [[k] for k in tagged]
+                    for drop in trials:
+                        s2 = self._solver(max(2000, self.d.budget.timeout_ms // 4))
+                        s2.add(*[c for k, c in enumerate(self.pc) if k not in drop])
+                        s2.add(z3.Not(goal))
+                        s2.add(*ground_axioms(self.pc + [goal]))
+                        if str(s2.check()) == 'unsat':
+                            r = 'unsat'
+                            detail = (detail + f' (proved without {len(drop)} of the {len(tagged)} invariant conjuncts)').strip()
+                            break
                 dt = time.time() - t0
                 self.d.solver_time += dt
                 model = None
@@ -231,7 +251,7 @@ class PathRun:
             ob.path = self.path_id()
             self.d.ob_cache[key] = ob
             self.d.obligations.append(ob)
-        if self.d.ob_cache[key].verdict != 'failed':
+        if self.d.ob_cache[key].verdict != 'failed' and assume:
             self.pc.append(goal)
 
     def fail_path(self, kind, label, lineno=None, detail=''):
@@ -306,6 +326,28 @@ class PathRun:
         h = z3.Int(self.fresh('h'))
         self.pc.append(items(h) == seqterm)
         return Val.VSeq(h)
+
+    def seq_facts(self, kind, r, *parts):
+        """valid pointwise facts about concat / extract terms, stated for the solver when the contract asks for them
+        (hints = ['seq-pointwise']): z3's sequence theory derives them slowly under quantifiers"""
+        if 'seq-pointwise' not in self.d.contract.hints:
+            return
+        key = ('seqfacts', kind, r.get_id())
+        if key in self.gcache:
+            return
+        self.gcache[key] = True
+        j = z3.Int(self.fresh('j'))
+        if kind == 'concat':
+            x, y = parts
+            lx, ly = z3.Length(x), z3.Length(y)
+            self.pc.append(z3.Length(r) == lx + ly)
+            self.pc.append(z3.ForAll([j], z3.Implies(z3.And(j >= 0, j < lx), r[j] == x[j])))
+            self.pc.append(z3.ForAll([j], z3.Implies(z3.And(j >= 0, j < ly), r[lx + j] == y[j])))
+            self.pc.append(z3.ForAll([j], z3.Implies(z3.And(j >= lx, j < lx + ly), r[j] == y[j - lx])))
+        elif kind == 'extract':
+            s_, a, n = parts
+            self.pc.append(z3.Implies(z3.And(a >= 0, n >= 0, a + n <= z3.Length(s_)), z3.Length(r) == n))
+            self.pc.append(z3.ForAll([j], z3.Implies(z3.And(a >= 0, j >= 0, j < n, a + j < z3.Length(s_)), r[j] == s_[a + j])))
 
     def to_val(self, v):
         if isinstance(v, SDyn): return v.t
@@ -397,10 +439,13 @@ class PathRun:
             self.pc.append(z3.And(t >= 1, t <= MAXORD))
             return SDate(t)
         if isinstance(sh, S.Opaque):
+            self.pc.append(z3.Int(name) >= 0)       # objects that exist before the call have non-negative identities
             return SDyn(Val.VObj(z3.Int(name)), shape=sh)
         if isinstance(sh, S.Child):
+            self.pc.append(z3.Int(name) >= 0)
             return SDyn(Val.VObj(z3.Int(name)), callable=True, shape=sh)
         if isinstance(sh, S.Callee):
+            self.pc.append(z3.Int(name) >= 0)
             return SCallee(Val.VObj(z3.Int(name)))
         if isinstance(sh, S.Dyn):
             t = z3.Const(name, Val)
@@ -410,6 +455,7 @@ class PathRun:
             return SDyn(t, shape=sh)
         if isinstance(sh, S.Rec):
             t = Val.VObj(z3.Int(name))
+            self.pc.append(z3.Int(name) >= 0)
             if sh.truthy:
                 self.pc.append(truthyV(t))
             if sh.isa:
@@ -472,13 +518,13 @@ class PathRun:
         if isinstance(sh, S.DateS): return z3.And(Val.is_VDate(t), Val.ord(t) >= 1, Val.ord(t) <= MAXORD)
         if isinstance(sh, S.NoneS): return Val.is_VNone(t)
         if isinstance(sh, S.Rec):
-            cs = [Val.is_VObj(t)] + ([truthyV(t)] if sh.truthy else []) + ([isinst(t, z3.IntVal(class_id(sh.isa)))] if sh.isa else [])
+            cs = [Val.is_VObj(t), Val.o(t) >= 0] + ([truthyV(t)] if sh.truthy else []) + ([isinst(t, z3.IntVal(class_id(sh.isa)))] if sh.isa else [])
             for an, ash in sh.attrs.items():
                 c = self.val_constraint(self.fld(an, t), ash)
                 if c is not None:
                     cs.append(c)
             return z3.And(*cs)
-        if isinstance(sh, (S.Opaque, S.Child, S.Callee)): return Val.is_VObj(t)
+        if isinstance(sh, (S.Opaque, S.Child, S.Callee)): return z3.And(Val.is_VObj(t), Val.o(t) >= 0)
         if isinstance(sh, S.Dyn): return self.kind_constraint(t, sh)
         if isinstance(sh, S.Opt):
             c = self.val_constraint(t, sh.shape)
